@@ -50,7 +50,12 @@ def build_driver(variant="san", extra_flags=(), cxx=None):
             jobs.append((s, os.path.join(tmp, "drv", os.path.basename(s) + ".o"), f2))
         errs = []
         with concurrent.futures.ThreadPoolExecutor(NCPU) as ex:
-            for src, rc, err in ex.map(_compile, jobs):
+            for (src, rc, err), job in zip(ex.map(_compile, jobs), jobs):
+                if rc != 0 and os.path.basename(src) == "layout.cpp":
+                    # the layout probes of PRIVATE nested records / members need -fno-access-control and the members' names; if
+                    # those were renamed or moved the probes are left out (their facts keep the pinned values, see extract.py)
+                    src, rc, err = _compile((job[0], job[1], job[2] + ["-DLAYOUT_PUBLIC_ONLY"]))
+                    if rc == 0: log("layout.cpp: private probes do not compile against this tree; built without them")
                 if rc != 0:
                     errs.append(f"{src}:\n{err}")
         if errs:
